@@ -297,6 +297,10 @@ func (s *Session) rfc3921Session() {
 			s.err = errors.New("expecting iq result after session open: " + s.err.Error())
 			return
 		}
+		if iq.Type == stanza.IQTypeError {
+			s.err = errors.New("iq session error")
+			return
+		}
 	}
 }
 
